@@ -46,7 +46,12 @@ MxcCands == {MXCPREFIX \o sn \o <<47>> \o m : sn \in ServerNames \cup {Rep(97, n
 VersionCands == Versions \cup {Rep(97, n) : n \in {31, 32, 33}} \cup {Rep(233, n) : n \in {31, 32, 33}}
                 \cup {Rep(128512, n) : n \in {16, 32, 33}}
 
-Kinds == {"server", "user", "alias", "room", "roomoralias", "event", "serverkey", "devicekey", "mxc", "version"}
+\* a . = _ - / space, e-acute, an Arabic-Indic digit, a CJK letter (alphanumeric in Unicode, not in the grammar)
+TokenCands == {<<97>>, <<>>, <<65,48,46,61,95,45>>, <<97,47,98>>, <<97,32,98>>, <<233>>, <<1635>>, <<31192,23494>>, <<97,0>>, <<43>>}
+              \cup {Rep(97, n) : n \in {254, 255, 256, 300}} \cup {Rep(233, n) : n \in {127, 128}}
+B64Cands == {<<65,65,65,65>>, <<>>, <<97,43,98,47,48>>, <<61,61,61,61>>, <<61,97,61,98>>, <<65,65,61,61>>, <<97,45,98,95>>, <<1082,1083,1102,1095>>,
+             <<97,32,98>>, <<233>>, <<1635>>, <<97,58,98>>}
+Kinds == {"server", "user", "alias", "room", "roomoralias", "event", "serverkey", "devicekey", "mxc", "version", "clientsecret", "sessionid", "b64key"}
 Cands(kind) ==
   CASE kind = "server" -> ServerCands
     [] kind \in {"user", "alias", "room", "roomoralias"} -> SigiledCands
@@ -54,6 +59,8 @@ Cands(kind) ==
     [] kind \in {"serverkey", "devicekey"} -> KeyCands
     [] kind = "mxc" -> MxcCands
     [] kind = "version" -> VersionCands
+    [] kind \in {"clientsecret", "sessionid"} -> TokenCands
+    [] kind = "b64key" -> B64Cands
 
 VARIABLES phase, kind, s
 Init == phase = 0 /\ kind \in Kinds /\ s = <<>>
